@@ -73,7 +73,7 @@ def run_job(args):
         if job.level != 'B':
             shims.HIT.clear()
             shims.install(job.extra() if callable(job.extra) else job.extra)
-            core.ST.defs.clear(); core.SQRT_OF.clear()
+            core.ST.defs.clear(); core.SQRT_OF.clear(); del core.PRODUCT_RULES[:]
             if job.rlimit: core.ST.rlimit = job.rlimit
             c = Ctx('sym'); c.pre = pre_obj
             def run():
